@@ -133,9 +133,9 @@ def sig_of(m):
 CLAIM17 = dict(
     category="model_checking", design_ref="DESIGN.md §4 C16 C17 C18 C38 (asp semantics)",
     text="AspScopes.tla: a heap-and-handle model of two package scopes importing the same subinclude (exported list, list of lists, "
-         "dict of list, a list with spare capacity built by a filtering comprehension, a function returning a global, a function returning "
+         "dict of list, an already sorted and an already reverse-sorted list, a list with spare capacity built by a filtering comprehension, a function returning a global, a function returning "
          "a list literal, a mutable default, a dict literal holding a list); P1 performs every TLC-enumerated sequence of <=2 (quick) / <=3 (thorough) mutation or reordering attempts (index "
-         "assignment, +=, nested +=, list + list, new dict key, setdefault, sorted, reversed, rebinding; directly, through an alias, a function "
+         "assignment, +=, nested +=, list + list, new dict key, setdefault, sorted, sorted(reverse=True), reversed, rebinding; directly, through an alias, a function "
          "argument, a comprehension variable, a loop variable, the previous result) while P2's probe reads interleave freely. TLC proves "
          "Isolation/ExportsUnchanged for the repaired design and exhibits the leaks of the code-shaped design. Every generated P1 program "
          "is rendered to BUILD text and run with the REAL interpreter in one process sharing one real subinclude(): P2 alone, P1 then P2, "
